@@ -464,13 +464,20 @@ Definition add_guard (O : oracle) (s : gfa) (text : string) : Prop :=
     no_self_mention (gl_of_line O 0 l) /\
     (forall prev m, merge_group prev (gl_of_line O 0 l) = Ok m -> no_self_mention m).
 
+Theorem rm_line_names s t s' : names_unique s -> rm_line s t = Ok s' -> names_unique s'.
+Proof.
+  intros Hu. unfold rm_line. destruct (find _ (lines s)) as [x|]; [|discriminate].
+  unfold disconnect. destruct (_ && _); [|discriminate]. intros H. injection H as <-.
+  unfold names_unique, ns_names. cbn [lines]. apply NoDup_flat_map_filter. exact Hu.
+Qed.
+
 Definition op_guard (O : oracle) (s : gfa) (o : op) : Prop :=
   match o with OAdd t => add_guard O s t | _ => True end.
 
 Theorem step_names O s o s' :
   names_unique s -> op_guard O s o -> step O s o = Ok s' -> names_unique s'.
 Proof.
-  intros Hu Hg. destruct o as [t|n|a b]; cbn [step].
+  intros Hu Hg. destruct o as [t|n|a b|t]; cbn [step]; [| | |apply rm_line_names; exact Hu].
   - unfold add_line. destruct (String.eqb t ""); [intros H; injection H as <-; exact Hu|].
     cbn [op_guard] in Hg. unfold add_guard in Hg.
     match goal with |- context [rbind ?p _] => destruct p as [l|e] eqn:Ep end; cbn [rbind]; [|discriminate].
@@ -1009,12 +1016,13 @@ Definition op_guard2 (O : oracle) (s : gfa) (o : op) : Prop :=
                           | _ => parse_line O (g_vlevel s) (Some (g_version s)) t
                           end) = Ok l -> kind_guard s (gl_of_line O 0 l))
   | ORm _ => dep_guard s
-  | ORename _ _ => False          (* closure under renaming is decided by the correspondence only *)
+  | ORename _ _ => False          (* renames: see op_guard3 in Proofs/RenameP.v *)
+  | ORmLine _ => dep_guard s
   end.
 
 Theorem step_inv O s o s' : Inv s -> op_guard2 O s o -> step O s o = Ok s' -> Inv s'.
 Proof.
-  intros [Hids [Hu Hc]] Hg. destruct o as [t|n|a b]; cbn [step op_guard2] in *.
+  intros [Hids [Hu Hc]] Hg. destruct o as [t|n|a b|t]; cbn [step op_guard2] in *.
   - destruct Hg as [Ga Gk]. unfold add_line.
     destruct (String.eqb t ""); [intros H; injection H as <-; split; [exact Hids | split; [exact Hu | exact Hc]]|].
     unfold add_guard in Ga.
@@ -1029,6 +1037,9 @@ Proof.
     destruct (is_star n); [discriminate|]. destruct (find_named s n) as [x|] eqn:Ex; [|discriminate].
     destruct (disconnect_closed s x s' Hids Hc Hg H0) as [I C]. split; [exact I | split; [exact Hn | exact C]].
   - destruct Hg.
+  - intros H0. pose proof (rm_line_names s t s' Hu H0) as Hn. unfold rm_line in H0.
+    destruct (find _ (lines s)) as [x|] eqn:Ex; [|discriminate].
+    destruct (disconnect_closed s x s' Hids Hc Hg H0) as [I C]. split; [exact I | split; [exact Hn | exact C]].
 Qed.
 
 Fixpoint guards2_hold (O : oracle) (s : gfa) (ops : list op) : Prop :=
